@@ -12,6 +12,7 @@ import (
 	"crypto/x509"
 	"crypto/x509/pkix"
 	"encoding/json"
+	"errors"
 	"fmt"
 	"math/big"
 	"math/rand"
@@ -43,6 +44,7 @@ type flakyVNode struct {
 	spec.VNode
 	failTokenGets *int
 	failTokenPuts *int
+	failTokenErr  *error // what the failing token lookup returns (nil: a retryable DHT error)
 }
 
 // Put fails the next N writes of client-token keys (the registration of a client
@@ -60,6 +62,9 @@ func (f flakyVNode) Get(ctx context.Context, key []byte) ([]byte, error) {
 	if *f.failTokenGets > 0 && strings.HasPrefix(string(key), "/tunnel/client/token/") {
 		*f.failTokenGets--
 		simrt.Probe("token-lookup-fault")
+		if f.failTokenErr != nil && *f.failTokenErr != nil {
+			return nil, *f.failTokenErr
+		}
 		return nil, spec.ErrKVStaleOwnership
 	}
 	return f.VNode.Get(ctx, key)
@@ -101,6 +106,7 @@ type World struct {
 	proofs        map[string]cachedProof
 	failTokenGets int
 	failTokenPuts int
+	failTokenErr  error
 }
 
 type Srv struct {
@@ -214,7 +220,7 @@ func (w *World) boot() bool {
 		s.ChordT = w.snet.NewTransport(&protocol.Node{Id: h.ID, Address: h.Name})
 		s.S = server.New(server.Config{
 			Logger: zap.NewNop(), ParentContext: w.ctx,
-			Chord:           spec.WrapRetryKV(flakyVNode{VNode: h.Node, failTokenGets: &w.failTokenGets, failTokenPuts: &w.failTokenPuts}, 200*time.Millisecond, 4),
+			Chord:           spec.WrapRetryKV(flakyVNode{VNode: h.Node, failTokenGets: &w.failTokenGets, failTokenPuts: &w.failTokenPuts, failTokenErr: &w.failTokenErr}, 200*time.Millisecond, 4),
 			TunnelTransport: s.TunT, ChordTransport: s.ChordT,
 			Apex: "apex.example.com", Acme: "acme.example.com",
 			Resolver: w.resolver, CertProvider: w.certs,
@@ -464,10 +470,12 @@ func (w *World) checkC25() {
 			if w.r.Chance(0.5) {
 				// the token lookup itself fails (retryably) for longer than the retry budget
 				w.failTokenGets = 4 + w.r.Intn(4)
+				// ... with a retryable DHT error, a non-retryable one, a plain error or a deadline
+				w.failTokenErr = pick(w.r, error(nil), error(spec.ErrKVStaleOwnership), error(spec.ErrNodeGone), error(spec.ErrNodeNoSuccessor), errors.New("scripted: connection refused"), error(context.DeadlineExceeded))
 			}
 			via := w.r.Intn(3)
 			_, err := w.call(c, via, m, req.Interface())
-			w.failTokenGets = 0
+			w.failTokenGets, w.failTokenErr = 0, nil
 			if err == nil {
 				w.res.Violate("C25", "unauthenticated-call-served/"+c.Kind+"/"+m, "%s was served for a caller of kind %q (no verified, registered client identity)", m, c.Kind)
 			} else {
